@@ -262,11 +262,14 @@ type EmitRun struct {
 const flagM8, flagX8 = 0x20, 0x10
 
 func runEmitter(ctx *Ctx, roles *EmitterRoles, fn *ssa.Function, cell EmitCell) *EmitRun {
-	ip := absint.New()
+	// the package's own read-only tables (a lookup table of width predicates, say) are part of what a method
+	// computes: the run starts from the heap image left by the package initialiser
+	w := NewWorld(ctx, "asm")
+	ip := w.IP
 	run := &EmitRun{Method: fn, Cell: cell, IP: ip, Final: map[int]absint.Val{}, Entry: map[int]absint.Val{}}
 	recv := &absint.Ptr{Nil: absint.TriF, Obj: ip.SymObj("a", roles.Named), T: roles.Named}
 	run.Recv = recv
-	st := &absint.State{Heap: absint.NewHeap(nil)}
+	st := w.NewState()
 	S := roles.Struct
 	// tracked flags: bits 4,5 fixed, the rest symbolic
 	tw, _, _ := absint.IntType(S.Field(roles.Tracker).Type())
